@@ -7,7 +7,7 @@ From TLV Require Import Base.Shape Base.PyList Base.Tensor Base.BigSum Base.Ops 
   Proofs.TransformsProofsPf2 Proofs.TransformsProofsR2 Proofs.TransformsProofsFlip Proofs.TransformsProofsApi Proofs.TransformsProofsPermList
   Proofs.TransformsProofsTTM Proofs.TransformsProofsOrtho Proofs.TransformsProofsNegMode Proofs.TransformsProofsNegMode2 Proofs.TransformsProofsAlign Proofs.TransformsProofsLink
   Model.TransformsApi Model.TransformsHeap Proofs.TransformsProofsValid Proofs.TransformsProofsHeap Proofs.TransformsProofsHeapTk.
-From TLV Require Model.Factorized Proofs.FactorizedProofs Proofs.FactorizedProofs3 Proofs.FactorizedProofs5 Proofs.FactorizedProofs9.
+From TLV Require Model.Factorized Proofs.FactorizedProofs Proofs.FactorizedProofs3 Proofs.FactorizedProofs5 Proofs.FactorizedProofs7 Proofs.FactorizedProofs9.
 Import ListNotations.
 
 (* --- cp_permute_factors: any column permutation applied to all factors and the weights *)
@@ -526,6 +526,28 @@ Theorem C04_link_ttm_to_tensor : forall (F : Type) (Op : fops F), ring_theory (f
     forall is os, inb ns is -> inb ms os -> get (f0 Op) t (is ++ os) = ttm_entry Op cs (is ++ os).
 Proof. exact @ttm_to_tensor_link. Qed.
 Print Assumptions C04_link_ttm_to_tensor.
+
+(* PARAFAC2 (round 6): pf2_entry is what C03's model of parafac2_to_slice returns on the encoded operand (the verdict of C03's model of
+   _validate_parafac2_tensor is a hypothesis; C04_link_pf2_nonvacuous exhibits it) *)
+Theorem C04_link_pf2_to_slice : forall (F : Type) (Op : fops F), ring_theory (f0 Op) (f1 Op) (fadd Op) (fmul Op) (fsub Op) (fopp Op) (@eq F) ->
+  forall (w : list F) (A B C : mat F) (Ps : list (mat F)) shp i,
+  Factorized.validate_parafac2 Op (Some (of_vec Op w)) [of_rows Op (length w) A; of_rows Op (length w) B; of_rows Op (length w) C]
+                               (map (of_rows Op (length B)) Ps) = Ok (shp, length w) ->
+  length Ps = length A -> i < length A ->
+  exists t, Factorized.parafac2_to_slice Op (Some (of_vec Op w)) [of_rows Op (length w) A; of_rows Op (length w) B; of_rows Op (length w) C]
+                                         (map (of_rows Op (length B)) Ps) i = Ok t /\
+    shape t = [length (nth i Ps []); length C] /\
+    forall j k, j < length (nth i Ps []) -> k < length C -> Factorized.get2 Op t j k = pf2_entry Op w A B C Ps i j k.
+Proof. exact @pf2_to_slice_link. Qed.
+Print Assumptions C04_link_pf2_to_slice.
+
+Example C04_link_pf2_nonvacuous :
+  let w := [1; 2]%Z in let A := [[1; 2]]%Z in let B := [[1; 0]; [0; 1]]%Z in let C := [[3; 1]; [0; 2]]%Z in let P := [[0; 1]; [-1; 0]; [0; 0]]%Z in
+  Factorized.validate_parafac2 Zops (Some (of_vec Zops w)) [of_rows Zops 2 A; of_rows Zops 2 B; of_rows Zops 2 C] (map (of_rows Zops 2) [P]) = Ok ([[3; 2]], 2) /\
+  (exists t, Factorized.parafac2_to_slice Zops (Some (of_vec Zops w)) [of_rows Zops 2 A; of_rows Zops 2 B; of_rows Zops 2 C] (map (of_rows Zops 2) [P]) 0 = Ok t /\
+             data t = [4; 8; -3; 0; 0; 0]%Z) /\
+  pf2_slice Zops w A B C [P] 0 = [[4; 8]; [-3; 0]; [0; 0]]%Z.
+Proof. cbv zeta. split; [vm_compute; reflexivity|]. split; [eexists; split; vm_compute; reflexivity|vm_compute; reflexivity]. Qed.
 
 Example C04_link_nonvacuous :
   FactorizedProofs3.tt_cores Z 1 [mk [1; 2; 2] [1; 2; 3; 4]%Z; mk [2; 2; 1] [5; 6; 7; 8]%Z] [2; 2] 1 /\
